@@ -78,7 +78,7 @@ Theorem spectrum_nonvacuous :
   /\ inside ex_ts ex_vs 1 4 = map (fun z => Q2Qc (inject_Z z)) [3; 1; 4; 1]
   /\ parseval_at QcF dft4 (crop_pad (f0 QcF) 4 (inside ex_ts ex_vs 1 4))
   /\ hermitian_at QcF dft4 (crop_pad (f0 QcF) 4 (inside ex_ts ex_vs 1 4))
-  /\ (0 < 512 # 1)%Q /\ (eps6 < (512 # 1) / inject_Z (2 * Z.of_nat 4))%Q
+  /\ (0 < 512 # 1)%Q /\ map doubled (krange false 4) = [false; true]
   /\ psd QcF dft4 ex_ts ex_vs 1 4 (512 # 1) false None = [(0, Q2Qc (81 # 2048)); (1, Q2Qc (2 # 2048))]
   /\ overlap_split [(0, 8); (10, 30)] 4 2
      = [(0, 4); (2, 6); (10, 14); (12, 16); (14, 18); (16, 20); (18, 22); (20, 24); (22, 26); (24, 28)]
